@@ -5,26 +5,29 @@ import (
 	"fmt"
 	"time"
 
-	"github.com/google/uuid"
-
 	"go.6river.tech/mmmbbb/grpc/pubsubpb"
 	"go.6river.tech/mmmbbb/verifharness/sqlwrap"
 	"go.6river.tech/mmmbbb/verifharness/world"
 )
 
-// Operation "StreamAN": a StreamingPull session that acknowledges (ids) and nacks (nids, modify
-// deadline 0) in ONE stream request. On the real server such a session is three observable steps,
-// recorded as three events so that each is judged by the contract of its kind:
+// Operation "StreamAN": a StreamingPull session whose second request acknowledges (ids) and sets
+// a zero deadline (nids - how a gRPC client nacks). On the real server such a session is up to
+// four observable steps, recorded as four events so that each is judged by the contract clause of
+// its kind (the stream's reader runs the acknowledgements and the deadline change as two
+// transactions, actions.MessageStreamer.doAcksNacks and doDelay):
 //
 //	Pull      what the stream's sender hands out when the stream opens (everything deliverable)
-//	StreamAN  the ack + nack transaction of the stream's reader (one transaction: all or nothing)
-//	Pull      what the sender hands out after that transaction woke it (ordered successors, ...)
+//	Ack       the reader's acknowledgement transaction            (if ids is not empty)
+//	ModAck 0  the reader's modify-deadline transaction            (if nids is not empty)
+//	Pull      what the sender hands out after those transactions woke it (ordered successors,
+//	          the nacked messages again)
 //
-// The sender's transactions after the ack / nack are parked at BEGIN (hold) until the StreamAN
-// event has been recorded, so the three states are observed separately. Under fault injection
-// (C09) only the ack + nack transaction is hit: the k-th interaction of the stream's actor after
-// the request was sent fails / cancels the stream; the stream then ends with an error, a "Failed"
-// event is recorded and a fresh stream is opened for k+1.
+// The states in between are made observable by parking the stream's transactions at BEGIN
+// (hold): the sender's fetches stay parked until the end, the reader's transactions pass one at
+// a time. Under fault injection (C09) the acknowledgement and the deadline change are sent as
+// two requests and each is hit on its own: the k-th database interaction of that transaction
+// fails / cancels the stream; the stream must then end with an error and the tables must be
+// unchanged; a "Failed" event is recorded and a fresh stream is opened for k+1.
 
 type streamSess struct {
 	cancel context.CancelFunc
@@ -37,8 +40,10 @@ type streamSess struct {
 
 func (e *Exec) openStream(ctx context.Context, real string) (*streamSess, error) {
 	InstallHook()
-	actor := fmt.Sprintf("%s-stream-%d", e.actor, e.idx)
-	h := &hold{release: make(chan struct{}), txDone: make(chan struct{}, 16)}
+	e.nstream++
+	actor := fmt.Sprintf("%s-stream-%d", e.actor, e.nstream)
+	h := newHold()
+	h.pass = []string{"MessageStreamer).doAcksNacks", "MessageStreamer).doDelay"}
 	holds.Store(actor, h)
 	sctx, cancel := context.WithCancel(world.ActorCtx(ctx, actor))
 	stream, err := e.W.Sub.StreamingPull(sctx)
@@ -69,12 +74,7 @@ func (e *Exec) openStream(ctx context.Context, real string) (*streamSess, error)
 }
 
 func (s *streamSess) close() {
-	s.h.mu.Lock()
-	if s.h.holding {
-		s.h.holding = false
-		close(s.h.release)
-	}
-	s.h.mu.Unlock()
+	s.h.set(false)
 	s.cancel()
 	holds.Delete(s.actor)
 }
@@ -99,161 +99,219 @@ func (s *streamSess) quiet(gap, max time.Duration) ([]*pubsubpb.ReceivedMessage,
 	}
 }
 
-func (e *Exec) nackBackoffs(known [][3]int) ([]int, error) {
-	post, err := e.W.Project(context.Background())
-	if err != nil {
+// openAndDrain opens a stream and records what its sender hands out as a Pull event. ok = false:
+// the stream was refused (recorded as a failed Pull), the operation is over.
+func (e *Exec) openAndDrain(ctx context.Context, sub, real string) (s *streamSess, ok bool, err error) {
+	if _, err := e.W.Project(context.Background()); err != nil {
+		return nil, false, err
+	}
+	t0 := e.W.NowTU()
+	s, oerr := e.openStream(ctx, real)
+	var got []*pubsubpb.ReceivedMessage
+	if oerr == nil {
+		got, oerr = s.quiet(90*time.Millisecond, 2*time.Second)
+	}
+	if oerr != nil {
+		if s != nil {
+			s.close()
+		}
+		return nil, false, e.emitPull(sub, real, 1000, nil, oerr, t0, e.W.NowTU())
+	}
+	// from here on the sender's fetches are parked
+	s.h.set(true)
+	return s, true, e.emitPull(sub, real, 1000, &pubsubpb.PullResponse{ReceivedMessages: got}, nil, t0, e.W.NowTU())
+}
+
+// readerTx sends one request whose handling is ONE transaction of the stream's reader and waits
+// for that transaction to end (or the stream to fail).
+func (s *streamSess) readerTx(req *pubsubpb.StreamingPullRequest) (error, error) {
+	s.h.letOne()
+	if err := s.stream.Send(req); err != nil {
 		return nil, err
 	}
-	bo := []int{}
-	for _, d := range known {
-		b := 0
-		for _, pd := range post.Del {
-			if pd.D == d {
-				for _, ps := range post.Subs {
-					if ps.ID == d[1] {
-						b = e.boTU(ps.Real, pd.Att)
-					}
-				}
-			}
-		}
-		bo = append(bo, b)
+	select {
+	case <-s.h.txDone:
+		return nil, nil
+	case err := <-s.errc:
+		s.errc <- err
+		return err, nil
+	case <-time.After(3 * time.Second):
+		return nil, fmt.Errorf("stream: the reader's transaction was not observed")
 	}
-	return bo, nil
 }
 
 func (e *Exec) doStreamAN(ctx context.Context, st Step) error {
 	real := e.RealName("subscriptions", st.Sub)
-	for k := 1; k < 200; k++ {
+	s, ok, err := e.openAndDrain(ctx, st.Sub, real)
+	if err != nil || !ok {
+		return err
+	}
+	type part struct {
+		op  string
+		ids [][3]int
+		req func() (*pubsubpb.StreamingPullRequest, [][3]int)
+	}
+	parts := []part{}
+	if len(st.Ids) > 0 {
+		parts = append(parts, part{"Ack", st.Ids, func() (*pubsubpb.StreamingPullRequest, [][3]int) {
+			us, known := e.resolveIDs(st.Ids)
+			return &pubsubpb.StreamingPullRequest{AckIds: strs(us)}, known
+		}})
+	}
+	if len(st.Nids) > 0 {
+		parts = append(parts, part{"ModAck", st.Nids, func() (*pubsubpb.StreamingPullRequest, [][3]int) {
+			us, known := e.resolveIDs(st.Nids)
+			return &pubsubpb.StreamingPullRequest{ModifyDeadlineAckIds: strs(us), ModifyDeadlineSeconds: make([]int32, len(us))}, known
+		}})
+	}
+	if e.FaultMode == "" && len(parts) == 2 {
+		// one request carrying both: the reader runs the two transactions back to back
 		if _, err := e.W.Project(context.Background()); err != nil {
+			s.close()
 			return err
 		}
-		// phase 1: open, let the sender hand out what is deliverable
+		ra, ackKnown := parts[0].req()
+		rn, nackKnown := parts[1].req()
+		ra.ModifyDeadlineAckIds, ra.ModifyDeadlineSeconds = rn.ModifyDeadlineAckIds, rn.ModifyDeadlineSeconds
 		t0 := e.W.NowTU()
-		s, err := e.openStream(ctx, real)
-		if err != nil {
-			return e.emit(map[string]any{"op": "StreamAN", "sub": st.Sub, "ids": [][3]int{}, "nids": [][3]int{}, "bo": []int{}, "t0": t0, "t1": e.W.NowTU(), "code": codeOf(err)})
+		serr, err := s.readerTx(ra)
+		if err == nil && serr == nil {
+			err = e.emit(map[string]any{"op": "Ack", "sub": st.Sub, "ids": ackKnown, "t0": t0, "t1": e.W.NowTU(), "code": "OK", "via": "stream"})
 		}
-		got, serr := s.quiet(90*time.Millisecond, 2*time.Second)
+		if err == nil && serr == nil {
+			t0 = e.W.NowTU()
+			s.h.letOne()
+			select {
+			case <-s.h.txDone:
+				err = e.emit(map[string]any{"op": "ModAck", "sub": st.Sub, "ids": nackKnown, "secs": 0, "t0": t0, "t1": e.W.NowTU(), "code": "OK", "via": "stream"})
+			case serr = <-s.errc:
+				s.errc <- serr
+			case <-time.After(3 * time.Second):
+				err = fmt.Errorf("stream: the reader's second transaction was not observed")
+			}
+		}
+		if err != nil {
+			s.close()
+			return err
+		}
 		if serr != nil {
-			// the stream was refused (unknown subscription, ...): that is the whole operation
 			s.close()
-			return e.emit(map[string]any{"op": "StreamAN", "sub": st.Sub, "ids": [][3]int{}, "nids": [][3]int{}, "bo": []int{}, "t0": t0, "t1": e.W.NowTU(), "code": codeOf(serr)})
+			return fmt.Errorf("stream ended unexpectedly: %v", serr)
 		}
-		if err := e.emitPull(st.Sub, real, 1000, &pubsubpb.PullResponse{ReceivedMessages: got}, nil, t0, e.W.NowTU()); err != nil {
-			s.close()
-			return err
-		}
-		// phase 2: the ack + nack request; every later transaction of the stream is parked
-		ackU, ackKnown := e.resolveIDs(st.Ids)
-		nackU, nackKnown := e.resolveIDs(st.Nids)
-		bo, err := e.nackBackoffs(nackKnown)
-		if err != nil {
-			s.close()
-			return err
-		}
-		var before string
-		var aw *awaiters
-		var f *faulter
-		if e.FaultMode != "" {
-			if before, err = e.W.Dump(ctx); err != nil {
+		return e.finishStream(s, st.Sub, real)
+	}
+	for _, p := range parts {
+		for k := 1; ; k++ {
+			if k >= 200 {
 				s.close()
-				return err
+				return fmt.Errorf("stream fault loop did not terminate")
 			}
-			if aw, err = e.armAwaiters(ctx); err != nil {
-				s.close()
-				return err
-			}
-			f = &faulter{mode: e.FaultMode, k: k}
-			faulters.Store(s.actor, f)
-		}
-		s.h.mu.Lock()
-		s.h.holding, s.h.allow, s.h.watch = true, 1, true
-		s.h.mu.Unlock()
-		t0b := e.W.NowTU()
-		req := &pubsubpb.StreamingPullRequest{AckIds: strs(ackU), ModifyDeadlineAckIds: strs(nackU), ModifyDeadlineSeconds: make([]int32, len(nackU))}
-		if err := s.stream.Send(req); err != nil {
-			s.close()
-			return err
-		}
-		var opErr error
-		select {
-		case <-s.h.txDone:
-		case opErr = <-s.errc:
-			s.errc <- opErr
-		case <-time.After(3 * time.Second):
-			s.close()
-			return fmt.Errorf("StreamAN: the stream's ack transaction was not observed")
-		}
-		fired := false
-		var kind sqlwrap.Kind
-		if f != nil {
-			f.mu.Lock()
-			fired, kind = f.fired, f.kind
-			f.k = 0
-			f.mu.Unlock()
-			faulters.Delete(s.actor)
-			if fired && opErr == nil {
-				// the interaction was hit: the stream must end with an error; give it the time
-				select {
-				case opErr = <-s.errc:
-					s.errc <- opErr
-				case <-time.After(700 * time.Millisecond):
+			if s == nil {
+				if s, ok, err = e.openAndDrain(ctx, st.Sub, real); err != nil || !ok {
+					return err
 				}
 			}
-		}
-		if _, err := e.W.Project(context.Background()); err != nil {
-			s.close()
-			return err
-		}
-		t1b := e.W.NowTU()
-		if fired {
-			// a faulted attempt: the stream is gone (or must be)
-			s.close()
-			time.Sleep(30 * time.Millisecond)
-			woken := aw.woken()
-			after, err := e.W.Dump(ctx)
+			if _, err := e.W.Project(context.Background()); err != nil {
+				s.close()
+				return err
+			}
+			req, known := p.req()
+			var before string
+			var aw *awaiters
+			var f *faulter
+			if e.FaultMode != "" {
+				if before, err = e.W.Dump(ctx); err != nil {
+					s.close()
+					return err
+				}
+				if aw, err = e.armAwaiters(ctx); err != nil {
+					s.close()
+					return err
+				}
+				f = &faulter{mode: e.FaultMode, k: k}
+				faulters.Store(s.actor, f)
+			}
+			t0 := e.W.NowTU()
+			serr, err := s.readerTx(req)
 			if err != nil {
+				s.close()
 				return err
 			}
-			if e.FaultMode == "cancel" && before != after {
-				// the cancellation arrived after the point of no return (the commit): the
-				// transaction completed; acknowledgements on a stream have no reply of their own,
-				// so this is the real run and must be the COMPLETE effect
-				return e.emit(map[string]any{"op": "StreamAN", "sub": st.Sub, "ids": ackKnown, "nids": nackKnown, "bo": bo,
-					"t0": t0b, "t1": e.W.NowTU(), "code": "OK"})
+			fired := false
+			var kind sqlwrap.Kind
+			if f != nil {
+				f.mu.Lock()
+				fired, kind = f.fired, f.kind
+				f.k = 0
+				f.mu.Unlock()
+				faulters.Delete(s.actor)
+				if fired && serr == nil {
+					// the interaction was hit: the stream must end with an error; give it the time
+					select {
+					case serr = <-s.errc:
+						s.errc <- serr
+					case <-time.After(700 * time.Millisecond):
+					}
+				}
 			}
-			if err := e.emit(map[string]any{"op": "Failed", "of": "StreamAN", "k": k, "kind": string(kind), "mode": e.FaultMode,
-				"code": codeOf(opErr), "dumpSame": before == after, "woken": woken, "t0": t0b, "t1": e.W.NowTU()}); err != nil {
+			ev := map[string]any{"op": p.op, "sub": st.Sub, "ids": known, "t0": t0, "code": "OK", "via": "stream"}
+			if p.op == "ModAck" {
+				ev["secs"] = 0
+			}
+			if fired {
+				// a faulted attempt: the stream is gone (or must be)
+				s.close()
+				s = nil
+				time.Sleep(30 * time.Millisecond)
+				woken := aw.woken()
+				after, err := e.W.Dump(ctx)
+				if err != nil {
+					return err
+				}
+				if e.FaultMode == "cancel" && before != after {
+					// the cancellation arrived after the point of no return (the commit): the
+					// transaction completed; acknowledgements on a stream have no reply of
+					// their own, so this is the real run and must be the complete effect
+					ev["t1"] = e.W.NowTU()
+					if err := e.emit(ev); err != nil {
+						return err
+					}
+					break
+				}
+				if err := e.emit(map[string]any{"op": "Failed", "of": p.op, "k": k, "kind": string(kind), "mode": e.FaultMode,
+					"code": codeOf(serr), "dumpSame": before == after, "woken": woken, "t0": t0, "t1": e.W.NowTU()}); err != nil {
+					return err
+				}
+				e.Faulted++
+				continue
+			}
+			if aw != nil {
+				aw.woken()
+			}
+			if serr != nil {
+				s.close()
+				return fmt.Errorf("stream ended unexpectedly: %v", serr)
+			}
+			ev["t1"] = e.W.NowTU()
+			if err := e.emit(ev); err != nil {
+				s.close()
 				return err
 			}
-			e.Faulted++
-			continue
+			break
 		}
-		if aw != nil {
-			aw.woken()
-		}
-		if err := e.emit(map[string]any{"op": "StreamAN", "sub": st.Sub, "ids": ackKnown, "nids": nackKnown, "bo": bo,
-			"t0": t0b, "t1": t1b, "code": codeOf(opErr)}); err != nil {
-			s.close()
-			return err
-		}
-		if opErr != nil {
-			s.close()
-			return nil
-		}
-		// phase 3: release the sender, collect what the transaction made deliverable
-		s.h.mu.Lock()
-		s.h.holding = false
-		close(s.h.release)
-		s.h.release = make(chan struct{})
-		s.h.mu.Unlock()
-		t0c := e.W.NowTU()
-		got, _ = s.quiet(90*time.Millisecond, 2*time.Second)
-		s.close()
-		time.Sleep(20 * time.Millisecond)
-		return e.emitPull(st.Sub, real, 1000, &pubsubpb.PullResponse{ReceivedMessages: got}, nil, t0c, e.W.NowTU())
 	}
-	return fmt.Errorf("StreamAN fault loop did not terminate")
+	if s == nil {
+		return nil
+	}
+	return e.finishStream(s, st.Sub, real)
 }
 
-var _ = uuid.Nil
+// finishStream releases the sender, records what it hands out now, and ends the session.
+func (e *Exec) finishStream(s *streamSess, sub, real string) error {
+	t0 := e.W.NowTU()
+	s.h.set(false)
+	got, _ := s.quiet(90*time.Millisecond, 2*time.Second)
+	s.close()
+	time.Sleep(20 * time.Millisecond)
+	return e.emitPull(sub, real, 1000, &pubsubpb.PullResponse{ReceivedMessages: got}, nil, t0, e.W.NowTU())
+}
